@@ -691,7 +691,8 @@ fn corrupted_objects(acc: &mut Acc) {
                     Ok((v, fe, d, _)) => {
                         // with the short type, "len2 over the capacity" etc. are all invalid by the reference predicate
                         let ref_valid = refmodel::plain_valid(*log, &x1, *l1 as usize, &x2, *l2 as usize, <$ty>::IS_NORMALIZED_FORM);
-                        if v != ref_valid || !fe || (!v && !d.contains("ILL_FORMED")) {
+                        // (how Debug marks an ill-formed object is not part of the property: it only must not panic)
+                        if v != ref_valid || !fe || d.is_empty() {
                             acc.violation(
                                 format!("corrupted {} ({})", $name, what),
                                 format!("is_valid = {} (reference {}), full_eq(self) = {}, Debug = {}", v, ref_valid, fe, &d[..d.len().min(120)]),
